@@ -71,3 +71,38 @@ pub fn server_config(kind: CertKind, alpn: &[&str]) -> Arc<rustls::ServerConfig>
     cfg.alpn_protocols = alpn.iter().map(|a| a.as_bytes().to_vec()).collect();
     Arc::new(cfg)
 }
+
+/// Certificate resolver that records the SNI of every ClientHello it sees.
+#[derive(Debug)]
+pub struct RecordingResolver {
+    key: Arc<rustls::sign::CertifiedKey>,
+    pub seen: Arc<parking_lot::Mutex<Vec<Option<String>>>>,
+}
+
+impl rustls::server::ResolvesServerCert for RecordingResolver {
+    fn resolve(&self, hello: rustls::server::ClientHello<'_>) -> Option<Arc<rustls::sign::CertifiedKey>> {
+        self.seen.lock().push(hello.server_name().map(|s| s.to_string()));
+        Some(self.key.clone())
+    }
+}
+
+pub fn server_config_recording(kind: CertKind, alpn: &[&str], seen: Arc<parking_lot::Mutex<Vec<Option<String>>>>) -> Arc<rustls::ServerConfig> {
+    let (cert, key) = match kind {
+        CertKind::Good => GOOD,
+        CertKind::Mismatch => MISMATCH,
+        CertKind::Untrusted => UNTRUSTED,
+        CertKind::Expired => EXPIRED,
+    };
+    let certs: Vec<CertificateDer<'static>> = CertificateDer::pem_slice_iter(cert.as_bytes()).map(|c| c.expect("leaf pem")).collect();
+    let key = PrivateKeyDer::from_pem_slice(key.as_bytes()).expect("leaf key");
+    let provider = provider();
+    let signing = provider.key_provider.load_private_key(key).expect("signing key");
+    let ck = Arc::new(rustls::sign::CertifiedKey::new(certs, signing));
+    let mut cfg = rustls::ServerConfig::builder_with_details(provider, Arc::new(FixedTime(SIM_WALL_CLOCK)))
+        .with_safe_default_protocol_versions()
+        .expect("protocol versions")
+        .with_no_client_auth()
+        .with_cert_resolver(Arc::new(RecordingResolver { key: ck, seen }));
+    cfg.alpn_protocols = alpn.iter().map(|a| a.as_bytes().to_vec()).collect();
+    Arc::new(cfg)
+}
